@@ -272,31 +272,26 @@ func (g *Gtp5g) newSdfFilter(i *ie.IE, srcIf uint8) (nl.AttrList, error) {
 			Value: fd,
 		})
 	}
-	if v.HasTTC() {
-		// TODO:
-		// v.ToSTrafficClass string
-		x := uint16(29)
+	if v.HasTTC() && len(v.ToSTrafficClass) == 2 {
+		// ToS Traffic Class: value and mask octets, as received
+		b := []byte(v.ToSTrafficClass)
 		attrs = append(attrs, nl.Attr{
 			Type:  gtp5gnl.SDF_FILTER_TOS_TRAFFIC_CLASS,
-			Value: nl.AttrU16(x),
+			Value: nl.AttrU16(uint16(b[0])<<8 | uint16(b[1])),
 		})
 	}
-	if v.HasSPI() {
-		// TODO:
-		// v.SecurityParameterIndex string
-		x := uint32(30)
+	if v.HasSPI() && len(v.SecurityParameterIndex) == 4 {
+		b := []byte(v.SecurityParameterIndex)
 		attrs = append(attrs, nl.Attr{
 			Type:  gtp5gnl.SDF_FILTER_SECURITY_PARAMETER_INDEX,
-			Value: nl.AttrU32(x),
+			Value: nl.AttrU32(uint32(b[0])<<24 | uint32(b[1])<<16 | uint32(b[2])<<8 | uint32(b[3])),
 		})
 	}
-	if v.HasFL() {
-		// TODO:
-		// v.FlowLabel string
-		x := uint32(31)
+	if v.HasFL() && len(v.FlowLabel) == 3 {
+		b := []byte(v.FlowLabel)
 		attrs = append(attrs, nl.Attr{
 			Type:  gtp5gnl.SDF_FILTER_FLOW_LABEL,
-			Value: nl.AttrU32(x),
+			Value: nl.AttrU32(uint32(b[0])<<16 | uint32(b[1])<<8 | uint32(b[2])),
 		})
 	}
 	if v.HasBID() {
